@@ -564,10 +564,21 @@ func (c *SuperCfg) reproducesOnce(bin string, p *Plan, sig string) (bool, string
 		return false, "no such violation in replay"
 	}
 	s, _ := crashSig(p.Prop, crashInfo{stderr: stderr, code: code})
-	if s == sig {
+	if sameCrash(s, sig) {
 		return true, ""
 	}
 	return false, fmt.Sprintf("exit %d sig %s", code, s)
+}
+
+// sameCrash: two process deaths are the same finding if their signatures are equal, or if both
+// are data-race reports: which pair of conflicting accesses the detector names first can
+// differ between executions of one schedule (several pairs race at once), the race is the same.
+func sameCrash(got, want string) bool {
+	if got == want {
+		return true
+	}
+	i, j := strings.Index(got, "|data-race|"), strings.Index(want, "|data-race|")
+	return i > 0 && i == j && got[:i] == want[:j]
 }
 
 func (c *SuperCfg) determinismCheck(a *agg, def *PropDef) int {
